@@ -69,6 +69,18 @@ def basis_pair(kind, n):
         L[:2, :2] = R[:2, :2] / 2
         assert np.array_equal(L.conj().T @ R, np.eye(n))
         return R, L
+    if kind in ("triangular", "triangular_complex"):
+        # eigenvectors of a triangular (one-way coupled) H_0: the first right vector is (2, 1, 0, ...), its dual is (0, 1, 0, ...),
+        # i.e. the left vector VANISHES on the row where the right vector is largest (the gauge row chosen from the right kernel)
+        R = np.eye(n, dtype=complex)
+        R[:2, :2] = np.array([[2, 1], [1, 0]]) if kind == "triangular" else np.array([[2j, 1], [1, 0]])
+        Ri = np.linalg.inv(R)
+        Ri = np.round(Ri * 1024) / 1024
+        assert np.array_equal(Ri @ R, np.eye(n))
+        L = Ri.conj().T.copy()
+        if kind == "triangular":
+            return R.real.copy(), L.real.copy()
+        return R, L
     if kind in ("biorth", "biorth_complex"):
         S = np.eye(n, dtype=complex)
         for a in range(n - 1):
@@ -372,6 +384,9 @@ def _numeric_pairs(cfg, model, keys, real_h1=False):
             H1[a, b] = re + 1j * im if (not herm or a <= b) else re - 1j * im
     if real_h1:
         H1 = np.ascontiguousarray(H1.real)
+    if cfg.get("h1_container"):
+        # every documented container of a perturbation: sparse arrays and the legacy sparse matrices
+        H1 = getattr(sparse, cfg["h1_container"])(H1)
     off = np.cumsum([0] + explicit)
     vecs = [Q[:, off[b] : off[b + 1]] for b in range(len(explicit))]
     if biorth:
@@ -431,7 +446,7 @@ def c06_typed(cfg):
                     cnt += 1
     sizes = list(cfg["explicit"]) + [n - sum(cfg["explicit"])]
     keys = [(w, i, j, o) for o in range(cfg["max_order"] + 1) for w in range(3) for i in range(len(sizes)) for j in range(len(sizes))]
-    sig = f"implicit-typed:herm={herm}:basis={cfg['basis']}:real_h1={bool(cfg.get('real_h1'))}"
+    sig = f"implicit-typed:herm={herm}:basis={cfg['basis']}:real_h1={bool(cfg.get('real_h1'))}:h1={cfg.get('h1_container', 'ndarray')}"
     try:
         pairs = _numeric_pairs(cfg, model, keys, real_h1=bool(cfg.get("real_h1")))
     except Exception as e:  # noqa: BLE001
@@ -487,6 +502,8 @@ def configs(tier):
             cfgs.append(dict(hermitian=False, n=3, explicit=[1], basis="rotation_pair", spectrum=["1j", "-1j", "3"], max_order=3))
             cfgs.append(dict(hermitian=False, n=4, explicit=[1, 1], basis="rotation_pair", spectrum=["1j", "-1j", "3", "1"], max_order=2, h0_format="sparse"))
             cfgs.append(dict(hermitian=False, n=3, explicit=[1], basis="biorth", spectrum=["0", "1", "3"], max_order=3))
+            cfgs.append(dict(hermitian=False, n=3, explicit=[1], basis="triangular", spectrum=["0", "2", "3"], max_order=3))
+            cfgs.append(dict(hermitian=False, n=4, explicit=[1, 1], basis="triangular_complex", spectrum=["1", "3", "2", "5"], max_order=2))
             cfgs.append(dict(hermitian=False, n=3, explicit=[1], basis="biorth_complex", spectrum=["0", "2", "3"], max_order=3))
             cfgs.append(dict(hermitian=False, n=4, explicit=[2], basis="biorth_complex", spectrum=["1", "1", "4", "6"], max_order=2))
             cfgs.append(dict(hermitian=False, n=4, explicit=[1, 1], basis="biorth", spectrum=["0", "2", "3", "7"], max_order=2, h0_format="sparse"))
@@ -504,6 +521,11 @@ def configs(tier):
         jobs.append(("vf.props.implicit", "c06_typed", dict(c, _job="typed")))
         if c["basis"] in ("identity", "perm", "hadamard", "biorth", "rotation_pair"):
             jobs.append(("vf.props.implicit", "c06_typed", dict(c, _job="typed", real_h1=True)))
+    for c in cfgs:
+        if c.get("pairs") or c["max_order"] < 3 and len(c["explicit"]) < 2 and not c.get("fd"):
+            continue
+        for cont in ("csr_array", "csr_matrix", "coo_matrix"):
+            jobs.append(("vf.props.implicit", "c06_typed", dict(c, _job="typed", h1_container=cont)))
     return jobs
 
 
@@ -520,6 +542,8 @@ def configs_c16_direct(tier):
             cfgs.append(dict(hermitian=False, n=3, explicit=[1], basis="rotation_pair", spectrum=["1j", "-1j", "3"], _job="direct"))
             cfgs.append(dict(hermitian=False, n=4, explicit=[2], basis="rotation_pair", spectrum=["1j", "-1j", "3", "1"], _job="direct"))
             cfgs.append(dict(hermitian=False, n=3, explicit=[1], basis="biorth", spectrum=["0", "1", "3"], _job="direct"))
+            cfgs.append(dict(hermitian=False, n=3, explicit=[1], basis="triangular", spectrum=["0", "2", "3"], _job="direct"))
+            cfgs.append(dict(hermitian=False, n=4, explicit=[2], basis="triangular_complex", spectrum=["1", "1", "2", "5"], _job="direct"))
             cfgs.append(dict(hermitian=False, n=4, explicit=[2], basis="biorth_complex", spectrum=["1", "1", "4", "6"], _job="direct"))
             cfgs.append(dict(hermitian=False, n=4, explicit=[1, 2], basis="biorth_complex", spectrum=["0", "2", "3", "7"], _job="direct"))
     return [("vf.props.implicit", "c16_direct", c) for c in cfgs]
